@@ -16,6 +16,8 @@ class DictContourEvent:
         assert contours[0].shape[1] == 2
         self.shape = (len(contours), np.nan, 2)
         self.contours = contours
+        # for hashing in util.obj2bytes (ancillary features)
+        self.identifier = hashobj(list(contours))
 
     def __iter__(self):
         return iter(self.contours)
